@@ -236,6 +236,7 @@ def replay(ctx, d, path):
         for e in evs:
             fh.write(json.dumps(e) + "\n")
     spec = "Trace_KNonce" if obj["replay"].get("layer") == "kernel" else "Trace_Nonce"
+    ctx.tlc_mc(d, "MC_NonceSeq.tla", "MC_NonceSeq.cfg", workers=2, timeout=300)     # the atomic machine replayed against
     r = ctx.tlc_trace(d, spec + ".tla", spec + "_monitor.cfg", p)
     ctx.evaluations = sum(1 for e in evs if e["ev"] == "Call")
     if r["accepted"]:
